@@ -22,21 +22,31 @@ TInit == /\ tid \in 1..NTraces /\ l = 1
 
 StyleTags == {"b", "u", "c1", "c2", "info", "comment", "question", "error"}
 
-\* ---- harness sanity: the page can be read unambiguously (running text never contains the name of a hidden command)
+\* ---- harness sanity: a page can be read unambiguously - no piece of running text, of a visible name or of a label can
+\*      be taken for the name of a hidden / disabled command (the wrapper may cut any of them into pieces)
 AllCmds(c) == Els(c.cmds) \cup UNION {Els(x.subs) : x \in Els(c.cmds)}
-TextWords(c) ==
+Secret(x) == x.hidden \/ ~x.enabled
+Words(c) ==
   LET Txt(x) == Els(x.desc) \cup UNION {Els(par) : par \in Els(x.help)}
-      AO(x) == UNION {Els(a.desc) \cup Els(a.dflt) : a \in Els(x.args)} \cup UNION {Els(o.desc) \cup Els(o.dflt) : o \in Els(x.opts)}
-  IN Els(c.display) \cup UNION {Els(par) : par \in Els(c.help)}
-     \cup UNION {Els(o.desc) \cup Els(o.dflt) : o \in Els(c.gopts)}
+      AO(x) == UNION {{a.name} \cup Els(a.desc) \cup Els(a.dflt) : a \in Els(x.args)}
+               \cup UNION {{o.long} \cup Els(o.desc) \cup Els(o.dflt) : o \in Els(x.opts)}
+  IN {c.app, c.ver} \cup Els(c.display) \cup UNION {Els(par) : par \in Els(c.help)}
+     \cup UNION {{o.long} \cup Els(o.desc) \cup Els(o.dflt) : o \in Els(c.gopts)}
      \cup UNION {Txt(x) \cup AO(x) : x \in AllCmds(c)}
-\* names that must never show up (hidden / disabled commands, with their aliases), as Mentions reads them
-Hideable(c) ==
-  LET names == UNION {{x.name} \cup Els(x.aliases) : x \in {y \in AllCmds(c) : y.hidden \/ ~y.enabled}}
-  IN names \cup {"[" \o n \o "]" : n \in names} \cup {n \o "," : n \in names}
-WellFormed(c) == (TextWords(c) \cup {c.app}) \cap Hideable(c) = {}
+     \cup UNION {{x.name} \cup Els(x.aliases) : x \in {y \in AllCmds(c) : ~Secret(y)}}
+     \cup {"aliases:", "version", "(default:", "(multiple", "values", "allowed)", "USAGE", "ARGUMENTS", "COMMANDS",
+           "AVAILABLE", "OPTIONS", "GLOBAL", "DESCRIPTION", "command", "arg", "or:", "The", "arguments", "of", "the", "to", "execute"}
+SecretNames(c) == UNION {{x.name} \cup Els(x.aliases) : x \in {y \in AllCmds(c) : Secret(y)}}
+HasPiece(w, n) == \E i \in 1..(Len(w) - Len(n) + 1) : SubSeq(w, i, i + Len(n) - 1) = n
+WellFormed(c) == \A n \in SecretNames(c) : \A w \in Words(c) : ~HasPiece(w, n)
 
 \* ---- keys that tell known defects apart
+\* known finding C13-style-tag-name: an argument named like a style tag (<info>, <b>, ...) is taken for one
+TaggedPage(c, p) ==
+  IF p = <<>> THEN FALSE
+  ELSE \E a \in Els(AllArgs(c, p)) \cup UNION {Els(x.args) : x \in Els(Children(c, p))} : a.name \in StyleTags
+TagKey(c, p, key) == IF TaggedPage(c, p) THEN (IF key = "" THEN "style-tag-name" ELSE key \o "/style-tag-name") ELSE key
+\* ... and then the listing misses exactly those arguments
 ArgKey(c, p, L) ==
   LET m == MissingArgs(c, p, L) IN IF m # {} /\ m \subseteq StyleTags THEN "style-tag-name" ELSE ""
 HiddenKey(c, p, L) ==
@@ -52,7 +62,7 @@ AMatches(c, p, o) ==
 PageClauses(c, e) ==
   LET p == e.p
       L == e.obs.lines
-  IN /\ Check(tid, l, "P.succeeds", e.obs.cls, Pre(c, p, tw) => e.obs.kind = "ok")
+  IN /\ Check(tid, l, "P.succeeds", TagKey(c, p, e.obs.cls), Pre(c, p, tw) => e.obs.kind = "ok")
      /\ IF e.obs.kind # "ok" THEN TRUE
         ELSE /\ Check(tid, l, "P.lists.args", ArgKey(c, p, L), MissingArgs(c, p, L) = {})
              /\ Check(tid, l, "P.lists.opts", "", MissingOpts(c, p, L) = {})
@@ -69,14 +79,19 @@ Admissible(c, i, j) ==
   ELSE LET ds == {n \in 1..Len(c.cmds[i].subs) : c.cmds[i].subs[n].enabled /\ c.cmds[i].subs[n].dflt}
        IN IF ds = {} THEN {<<i>>} ELSE {<<i, n>> : n \in ds}
 PageOK(c, p, L) == Complete(c, p, L) /\ Shown(c, p, L) = {} /\ (Pre(c, p, tw) => Fits(L, tw))
-ReqKey(c, e) == IF e.i > 0 THEN (IF c.cmds[e.i].builtin THEN "builtin-help" ELSE "") ELSE ""
+ReqKey(c, e) ==
+  IF e.i = 0 THEN ""
+  ELSE IF c.cmds[e.i].builtin THEN "builtin-help"
+  ELSE IF \E p \in Admissible(c, e.i, e.j) : TaggedPage(c, p) THEN "style-tag-name" ELSE ""
 ObsKey(o) == IF o.kind = "ok" THEN "" ELSE o.cls
 
 RequestClauses(c, e) ==
   LET adm == Admissible(c, e.i, e.j)
       pre == \A p \in adm : Pre(c, p, tw)
       Shows(o) == o.kind = "ok" => \E p \in adm : PageOK(c, p, o.lines)
-  IN /\ Check(tid, l, "P.request.status", ObsKey(IF e.a.kind = "ok" THEN e.b ELSE e.a),
+      tagged == \E p \in adm : TaggedPage(c, p)
+      cls == ObsKey(IF e.a.kind = "ok" THEN e.b ELSE e.a)
+  IN /\ Check(tid, l, "P.request.status", IF tagged THEN cls \o "/style-tag-name" ELSE cls,
               pre => (e.a.kind = "ok" /\ e.b.kind = "ok"))
      /\ Check(tid, l, "P.request.same", ReqKey(c, e), (e.a.kind = "ok" /\ e.b.kind = "ok") => e.a.lines = e.b.lines)
      /\ Check(tid, l, "P.request.page", ReqKey(c, e), Shows(e.a) /\ Shows(e.b))
